@@ -638,6 +638,10 @@ def alphabet(profile, keys, classes, small=False):
         ops.append(("wmeta", 0, "log", True))
         ops.append(("wmeta", k2, "log", False))
         ops.append(("rmeta", 0, "log"))
+        # the empty string as metadata key (stored with the data object, and on its own)
+        ops.append(("wmeta", 0, "", True))
+        ops.append(("wmeta", k2, "", False))
+        ops.append(("rmeta", 0, ""))
         ops.append(("isall", (0, k2)))
     if len(keys) >= 2:
         a, b = 0, 1 % len(keys)
